@@ -792,6 +792,12 @@ c12_glue_instances!(c12_glue_load_p1, c12_glue_store_p1, c12_glue_rmw_p1, c12_gl
 //@ name=c12_glue_owned_w0 props=C12 tier=quick fns=src/rt/atomic.rs::Atomic::unsync_load,src/rt/atomic.rs::Atomic::with_mut
 c12_glue_instances!(c12_glue_load_w0, c12_glue_store_w0, c12_glue_rmw_w0, c12_glue_owned_w0, 0, true);
 
+//@ name=c12_glue_load_w3 props=C12 tier=thorough fns=src/rt/atomic.rs::Atomic::load models=Execution::schedule=c05_schedule_n1,State::match_load_to_stores=c12_cell_match_*
+//@ name=c12_glue_store_w3 props=C12 tier=thorough fns=src/rt/atomic.rs::Atomic::store models=Execution::schedule=c05_schedule_n1
+//@ name=c12_glue_rmw_w3 props=C12 tier=thorough fns=src/rt/atomic.rs::Atomic::rmw models=Execution::schedule=c05_schedule_n1,State::match_rmw_to_stores=c12_cell_match_*
+//@ name=c12_glue_owned_w3 props=C12 tier=quick fns=src/rt/atomic.rs::Atomic::unsync_load,src/rt/atomic.rs::Atomic::with_mut
+c12_glue_instances!(c12_glue_load_w3, c12_glue_store_w3, c12_glue_rmw_w3, c12_glue_owned_w3, 3, true);
+
 crate::with_fire_forbidden! {
 //@ props=C12 tier=quick fns=src/rt/atomic.rs::Atomic::new,src/rt/object.rs::Store::insert
 #[kani::proof]
